@@ -15,6 +15,7 @@ BASE = {
         "np_max": 4,
         "p_base_guess": 0.4,
         "p_param_guess": 0.5,
+        "p_interior": 0.35,
         "weights": {"set_value": 8, "set_initial": 1.0, "subject_to": 0.5, "clear_constraints": 0.2, "add_objective": 0.3, "solver": 0.2,
                     "set_T": 0.2, "set_t0": 0.1, "late_sym": 0.1, "reject": 0.2, "save": 1, "load": 1, "method": 2, "catsave": 1},
         "p_real": 0.15,
